@@ -39,6 +39,9 @@ HVSubmodular      == Judged => \A J \in SUBSET I : \A i \in I \ J :
                         (\A T \in SUBSET I : Unambiguous(pts, T, ref)) /\ HV(pts, I, ref) # Infinite =>
                           \* gain of i w.r.t. the smaller set J is at least its gain w.r.t. I \ {i}
                           HV(pts, J \cup {i}, ref) - HV(pts, J, ref) >= HV(pts, I, ref) - HV(pts, I \ {i}, ref)
+\* the two oracles agree wherever both apply (two objectives, all coordinates finite)
+Finite2D          == Dim = 2 /\ (\A i \in I : \A c \in 1..2 : pts[i][c] # NegInf) /\ (\A c \in 1..2 : ref[c] # PosInf)
+SweepEqualsCells  == Judged => (Finite2D => \A J \in SUBSET I : J # {} => HVAllowed(pts, J, ref) = {HV2D(pts, J, ref)})
 GreedyMeetsBound  == Judged => \A k \in 1..Len(pts) :
                         (\A T \in SUBSET I : Unambiguous(pts, T, ref)) =>
                            ApproxOK(pts, Greedy(pts, {}, k, ref), k, ref)
